@@ -1,4 +1,5 @@
 import OW.Proofs.GR4JSpec
+import OW.Proofs.GR4JConv
 /-!
 C15 — GR4J computes the published GR4J equations (Perrin, Michel, Andréassian 2003).
 
@@ -91,5 +92,24 @@ theorem gr4j_code_eq_published (x1 x2 x3 x4 : ℝ) (hx1 : 0 < x1) (hx4 : 0 < x4)
        (run x1 x2 x3 x4 ⌈x4⌉₊ ⌈2 * x4⌉₊ st xs).2.map RR.GR4J.toDay) := by
   rw [gr4j_spec_cap_inactive x1 x2 x3 x4 hx1 xs h]
   exact gr4j_code_eq_spec x1 x2 x3 x4 hx4 st hst xs
+
+/-- **The specification's unit hydrographs are the paper's convolutions.** Run day by day from a vector of pending
+deliveries of length ⌈x4⌉ (resp. ⌈2·x4⌉), the specification delivers on day t what was pending for that day plus
+Σ_{i≤t} UH(t−i+1)·x_i, the discrete convolution of the inputs x_i (0.9·Pr or 0.1·Pr) with the published ordinates. -/
+theorem spec_uh_is_convolution (x4 : ℝ) (hx : 0 < x4) (xs : List ℝ) (t : ℕ) (ht : t < xs.length) :
+    (∀ pend : List ℝ, pend.length = ⌈x4⌉₊ →
+      (RR.GR4J.uhRun (Spec.GR4J.UH1 x4) pend xs).2.getD t 0 =
+        pend.getD t 0 + ∑ i ∈ Finset.range (t + 1), Spec.GR4J.UH1 x4 (t - i + 1) * xs.getD i 0) ∧
+    (∀ pend : List ℝ, pend.length = ⌈2 * x4⌉₊ →
+      (RR.GR4J.uhRun (Spec.GR4J.UH2 x4) pend xs).2.getD t 0 =
+        pend.getD t 0 + ∑ i ∈ Finset.range (t + 1), Spec.GR4J.UH2 x4 (t - i + 1) * xs.getD i 0) :=
+  ⟨fun pend h => RR.GR4J.uhRun_convolution _ xs pend (fun k hk => RR.GR4J.UH1_beyond x4 hx k (h ▸ hk)) t ht,
+   fun pend h => RR.GR4J.uhRun_convolution _ xs pend (fun k hk => RR.GR4J.UH2_beyond x4 hx k (h ▸ hk)) t ht⟩
+
+example : (1 : ℕ) < ([3.5, 0, 12] : List ℝ).length ∧ ([0, 0] : List ℝ).length = ⌈(1.7 : ℝ)⌉₊ := by
+  refine ⟨by decide, ?_⟩
+  have : ⌈(1.7 : ℝ)⌉₊ = 2 := by
+    rw [Nat.ceil_eq_iff (by norm_num)]; constructor <;> norm_num
+  rw [this]; rfl
 
 end OW.Props.C15
